@@ -530,6 +530,11 @@ func (r *runner) destroy(e *envRec) error {
 	_, err := r.w.Client().DestroyEnvironment(ctx, &pb.DestroyEnvironmentRequest{Id: e.id, Force: true, AllowInRunningState: true})
 	r.mark(sx.L(sx.A("destroyed"), sx.A("E:"+e.id), sx.B(err == nil)))
 	e.dead = true
+	if err != nil {
+		// the scenario asked for a destroyed environment and the core did not deliver one (seen under load:
+		// the tasks are unlocked, the KILLs not sent): the point is not established
+		return &sim.InfraError{What: "DestroyEnvironment of a settled environment failed", Err: err}
+	}
 	// the KILLs are asynchronous to the reply; the barrier of the next quiet point orders them
 	return nil
 }
@@ -644,7 +649,7 @@ func runScenario(sc *scenario, verbose bool) (string, error) {
 	// its roster only after the ACCEPT calls of the offer round returned, and an update handled before that
 	// is dropped ("attempted status update of task not in roster") — the deployment then times out. Real
 	// tasks take far longer to start than that window: so do these.
-	w.SetOutcome(sim.Selector{}, sim.EvLaunch, sim.Outcome{Kind: sim.OK, Delay: 120 * time.Millisecond})
+	w.SetOutcome(sim.Selector{}, sim.EvLaunch, sim.Outcome{Kind: sim.OK, Delay: 300 * time.Millisecond})
 	for _, a := range sc.acts {
 		switch a.kind {
 		case "env":
